@@ -431,12 +431,31 @@ def lookups_by_name(repo: Repo, run: Run) -> None:
     run.floor("R0", "name-based selection obligations taken over from C20", m, 3)
 
 
+def domain_by_name(repo: Repo, run: Run) -> None:
+    """R0 (from C04/K6): which pairing domain a record goes to is decided by the NAME the supplied table gives its id (is it a
+    trace-family name?), never by the id's class byte or another property of the number - under a table that lists a TRACE_*
+    name at another id the record must still be paired apart from the ordinary calls."""
+    from . import c04
+    probe = Run("C04", run.tier, run.repo_root)
+    c04.check(repo, probe)
+    m = 0
+    for o in probe.obligations:
+        if o["rule"] == "K6" and o["construct"] == "domain selection":
+            m += 1
+            run.ob("R0", o["module"], o["scope"], "pairing domain chosen by the table's name for the id (C04/K6)", o["ok"],
+                   (o.get("what", "") + " - under a supplied table that lists a trace-family name at an id of another class the "
+                    "record is paired with the ordinary calls and picks up their records") if not o["ok"] else "",
+                   nontrivial=False)
+    run.floor("R0", "domain-selection obligations taken over from C04", m, 1)
+
+
 def check(repo: Repo, run: Run) -> None:
     interp = sym.Interp(repo)
     # the four groups of rules are independent: one that cannot find its anchors does not stop the others (its analysis
     # error is raised after they have been judged)
     deferred = None
-    for part in (lambda: lookups_by_name(repo, run), lambda: analyse_table_parser(repo, run, interp),
+    for part in (lambda: lookups_by_name(repo, run), lambda: domain_by_name(repo, run),
+                 lambda: analyse_table_parser(repo, run, interp),
                  lambda: analyse_indirection(repo, run, interp), lambda: analyse_absent(repo, run, interp)):
         try:
             part()
